@@ -140,7 +140,7 @@ def run(tier, v):
         "design_configs": ["Scenario_thorough.cfg" if thorough else "Scenario_exh.cfg", "Scenario_next2.cfg"],
     }
     return "model_checking", cov, [
-        "design level exhaustive within: <= 3 listed requests, multiplicities 1..3, sleeps 0/3/4 ms, 6 flow profiles, "
+        "design level exhaustive within: <= 3 listed requests, multiplicities 1..3, sleeps 0/3/4 ms, 9 flow profiles, "
         "scripts ok / transport@k / status 418@k for every k of the first shot + 1, 2 shots; weights in {1,2,3,4,6} for 1..3 scenarios",
         "the replayed subset of the flow cases is chosen by id modulo (seeded); ring, iter and next cases are all replayed",
         "pauses are checked one-sidedly (>= requested); min_waiting_time, [rand] and the html templater are not modelled",
@@ -170,6 +170,8 @@ MANIFEST = dict(
          "variable tree and the stop-on-failure rule explicit and TLC enumerates the bounded space completely; every "
          "exported case is rendered to the real payload format and executed by the real code, so a divergence in order, "
          "multiplicity, variable flow, failure handling, weights or [next] sharing shows up as a rejected observation.",
-    note="bounds: <= 3 listed requests x multiplicity 1..3, 2 shots, 1 failure per run; pauses one-sided; [rand], "
+    note="bounds: <= 3 listed requests x multiplicity 1..3, 9 flow profiles, 2 shots, 1 failure per run (quick: representative "
+         "shapes for lists of 2 and 3, failure positions <= 5; a seeded 1/7 of the flow cases is replayed, 1/3 in thorough); pauses "
+         "one-sided; ring order inside a cycle not demanded; a missing template variable is '<no value>', not a failure; [rand], "
          "min_waiting_time, html templater, gRPC scenarios not covered; renderer/recorder trusted",
 )
